@@ -9,6 +9,6 @@ import Driver.SessIn
 import Driver.Fec
 import Driver.Cfb
 import Driver.Pool
-import Driver.KcpOwn
-import Driver.FecOwn
+-- import Driver.KcpOwn  -- TEMP (w-wedge)
+-- import Driver.FecOwn  -- TEMP (w-wedge)
 import Driver.SessFec
